@@ -168,6 +168,24 @@ fn test(c: &Case, st: &mut Stats) -> TestResult {
     };
     let sup: Vec<AttributeType> = supported.iter().map(|t| AttributeType::new(*t)).collect();
     let req: Vec<AttributeType> = required.iter().map(|t| AttributeType::new(*t)).collect();
+    // the verdict is a function of (message, supported, required) alone: one case in four polices
+    // something else on this thread first, a non-request twin of the message with nothing supported
+    // (for which the library documents a panic when an error response would be due; contained here)
+    if (c.sup_sel >> 56) & 3 == 1 {
+        let mut twin = bytes.clone();
+        twin[0] |= 0x01;
+        if (c.sup_sel >> 58) & 1 == 1 {
+            twin[1] |= 0x10;
+        }
+        if let Some(fp_off) = find_fp(&twin) {
+            let v = refstun::fingerprint_value(&twin, fp_off);
+            twin[fp_off + 4..fp_off + 8].copy_from_slice(&v.to_be_bytes());
+        }
+        if let Ok(m2) = Message::from_bytes(&twin) {
+            let r = guard(|| Message::check_attribute_types(&m2, &[], &req).map(|b| b.build()));
+            st.class(if r.is_err() { "preceded by a contained panic of policing on a non-request" } else { "preceded by policing of a non-request" });
+        }
+    }
     let got = guard(|| Message::check_attribute_types(&msg, &sup, &req).map(|b| b.build()))
         .map_err(|p| Fail::new("c16-panic", format!("check_attribute_types panicked: {}", p)))?;
     let ctx_text = || {
